@@ -677,6 +677,88 @@ def run_reborn(res, c):
                 del s
                 gc.collect()
             res["nontrivial"].append(hash(("reborn", deco, body)) & 0xFFFFFFFFFFFF)
+    run_failing_pairs(res, c, decos)
+
+
+def run_failing_pairs(res, c, decos):
+    """Several calls of one decorated method in flight at once on a FRESH instance (nothing cached, nothing
+    registered yet), bodies that block and then fail: every call ends with the exception of its own body."""
+    import asynq
+    from asynq import asynq as A
+    from asynq import debug as adebug
+    from asynq.tools import DeduplicateDecorator
+
+    class Boom(Exception):
+        pass
+
+    for deco, wrap in sorted(decos.items()):
+        for argsets in (((1,), (2,)), ((1,), (1,)), ((1,), (2,), (3,)), ((1,), (2, 10), (1,))):
+            for fails in ("all", "first", "last"):
+                asynq.scheduler.reset()
+                DeduplicateDecorator.tasks.clear()
+
+                def describe(self, x, y=10):
+                    self.runs.append((x, y))
+                    yield adebug.sync()
+                    n = len(self.runs)
+                    if fails == "all" or (fails == "first" and (x, y) == self.first) or (fails == "last" and (x, y) == self.last):
+                        raise Boom(self.name, x, y)
+                    return (self.name, x, y)
+
+                def init(self, name):
+                    self.name = name
+                    self.runs = []
+                    self.first = argsets[0] + (10,) * (2 - len(argsets[0]))
+                    self.last = argsets[-1] + (10,) * (2 - len(argsets[-1]))
+
+                Store = type("Store", (object,), {"describe": wrap(describe), "__init__": init})
+                s = Store("fresh")
+
+                @A()
+                def gather():
+                    ts = [s.describe.asynq(*a) for a in argsets]
+                    try:
+                        yield ts
+                    except Boom:
+                        pass
+                    except Exception:
+                        pass
+                    return ts
+
+                try:
+                    ts = gather()
+                except BaseException as e:
+                    ts = None
+                    problem = {"computation raised": repr(e)[:160]}
+                res["evaluations"] += 1
+                c["calls_in_flight_together_on_a_fresh_instance"] = c.get("calls_in_flight_together_on_a_fresh_instance", 0) + len(argsets)
+                if ts is not None:
+                    problem = None
+                    for a, t in zip(argsets, ts):
+                        full = a + (10,) * (2 - len(a))
+                        should_fail = fails == "all" or (fails == "first" and full == s.first) or (fails == "last" and full == s.last)
+                        if not t.is_computed():
+                            problem = {"call": a, "observed": "still pending"}
+                        elif should_fail:
+                            e = t.error()
+                            if not isinstance(e, Boom) or e.args != ("fresh",) + full:
+                                problem = {"call": a, "expected": "Boom%r" % (("fresh",) + full,), "observed": repr(e if e is not None else t.value())[:160]}
+                        elif t.error() is not None or t.value() != ("fresh",) + full:
+                            problem = {"call": a, "expected": repr(("fresh",) + full), "observed": repr(t.error() or t.value())[:160]}
+                        if problem:
+                            break
+                if problem and len(res["violations"]) < 8:
+                    res["violations"].append(
+                        {
+                            "oracle": "call-did-not-end-with-its-own-bodys-outcome",
+                            "mechanism": "call-did-not-end-with-its-own-bodys-outcome/" + deco,
+                            "detail": dict(problem, decorator=deco, calls=repr(argsets), failing=fails),
+                            "case": {"mode": "reborn", "cases": [0, 1]},
+                        }
+                    )
+                res["nontrivial"].append(hash(("failpairs", deco, argsets, fails)) & 0xFFFFFFFFFFFF)
+    DeduplicateDecorator.tasks.clear()
+    asynq.scheduler.reset()
 
 
 def cells():
